@@ -342,4 +342,145 @@ class C13(Property):
             any(f.get("kind") == "linker_offset" for f in all_files(d))
 
 
-PROPS = {p.pid: p for p in [C06(), C12(), C13()]}
+class C14(Property):
+    pid = "C14"
+    title = "KEEP inheritance"
+    rule = ("valid-stream documents with keep_sections in {absent,true,false,list} at class/segment/group/file, depth up to 4, "
+            "sub-group and section_order-moved sections, both modes, plus the {absent,true,false,list}^5 lattice over "
+            "class/segment/group/group/file; non-trivial when at least two levels carry explicit values that disagree")
+    lattice_exhaustive = True
+
+    def profile(self, r):
+        return Profile(p_keep=0.55, p_group=0.45, max_depth=4, p_classes=0.6, p_addr=0.7, p_section_order=0.3,
+                       p_subgroups=0.4, p_missing_key=0.0, p_pad=0.05, p_offset=0.05)
+
+    def explicit_levels(self, doc):
+        vals = []
+        for c in doc.get("vram_classes") or []:
+            if "keep_sections" in c:
+                vals.append(json.dumps(c["keep_sections"]))
+        for s in doc.get("segments", []):
+            if "keep_sections" in s:
+                vals.append(json.dumps(s["keep_sections"]))
+        for f in all_files(doc):
+            if "keep_sections" in f:
+                vals.append(json.dumps(f["keep_sections"]))
+        return vals
+
+    def nontrivial(self, c):
+        return len(set(self.explicit_levels(c["doc"]))) >= 2
+
+    def extra_cases(self, tier):
+        import itertools
+        vals = [None, True, False, [".data"]]
+        cases = []
+        combos = list(itertools.product(vals, repeat=5))
+        if tier != "thorough":
+            combos = combos[::5]
+        for i, (kc, ks, kg1, kg2, kf) in enumerate(combos):
+            def put(d, k):
+                if k is not None:
+                    d["keep_sections"] = copy.deepcopy(k)
+                return d
+            f = put({"path": "f.o"}, kf)
+            g2 = put({"kind": "group", "dir": "g2", "files": [f, {"path": "sib.o"}]}, kg2)
+            g1 = put({"kind": "group", "files": [g2, {"path": "lib.a", "subfile": "m.o"}]}, kg1)
+            seg = put({"name": "ovl", "vram_class": "cls", "files": [g1, {"path": "top.o", "section_order": {".data": ".text"}}]}, ks)
+            cls = put({"name": "cls", "fixed_vram": 0x80100000}, kc)
+            doc = {"settings": {"partial_scripts_folder": "ps", "partial_build_segments_folder": "pb"},
+                   "vram_classes": [cls], "segments": [seg]}
+            cases.append({"id": "kl%d" % i, "stream": "lattice:keep", "doc": doc, "opts": [],
+                          "mode": "partial" if i % 2 else "normal", "version_comment": False})
+        return cases
+
+
+OVER = ["alloc_sections", "noload_sections", "subalign", "segment_start_align", "segment_end_align",
+        "section_start_align", "section_end_align", "sections_start_alignment", "sections_end_alignment",
+        "wildcard_sections", "fill_value", "sections_subgroups"]
+NULLABLE = {"subalign", "segment_start_align", "segment_end_align", "section_start_align", "section_end_align", "fill_value"}
+OUT_KEYS = ("outcome", "script", "joined", "deps", "header", "symbols", "partials")
+
+
+def same_outputs(a, b):
+    return {k: a.get(k) for k in OUT_KEYS} == {k: b.get(k) for k in OUT_KEYS}
+
+
+class C08(Property):
+    pid = "C08"
+    title = "segment overrides global overrides default"
+    rule = ("the 12 options x {absent,null,value} at global level x {absent,null,value} at segment level (two distinct values), "
+            "embedded in small documents, plus valid-stream documents with many overrides; every case is also re-run with all "
+            "effective values restated explicitly on every segment while the global values are replaced by different ones; "
+            "non-trivial when some option is set at both levels with different values")
+    lattice_exhaustive = True
+
+    def profile(self, r):
+        return Profile(p_settings_field=0.45, p_segment_override=0.45, p_align=0.6, p_custom_lists=0.5, p_subgroups=0.5,
+                       p_missing_key=0.0, p_cond=0.1)
+
+    def nontrivial(self, c):
+        st = c["doc"].get("settings") or {}
+        for s in c["doc"].get("segments", []):
+            for k in OVER:
+                if k in s and k in st and s[k] != st[k]:
+                    return True
+        return False
+
+    def evaluate(self, w, c):
+        from .engine import impl_request
+        impl, v = w.eval(c, [self.pid])
+        res = self.judge(c, impl, v, w)
+        if res["status"] not in ("ok", "corr") or impl.get("outcome") != "ok":
+            return res
+        rr = w.d.ask({"op": "resolved", "case": {"id": c["id"], "doc": tree.to_proto(c["doc"])}})
+        if not rr or "segments" not in rr:
+            return res
+        doc2 = copy.deepcopy(c["doc"])
+        for seg, eff in zip(doc2["segments"], rr["segments"]):
+            for k in OVER:
+                seg[k] = eff[k]
+        st = doc2.setdefault("settings", {})
+        # different global values: must be shielded by the explicit segment values
+        alt = {"alloc_sections": [".zz1", ".text"], "noload_sections": [".zz2"], "subalign": 64, "segment_start_align": 0x2000,
+               "segment_end_align": 0x4000, "section_start_align": 0x80, "section_end_align": 0x100,
+               "sections_start_alignment": {".text": 0x400}, "sections_end_alignment": {".data": 0x800},
+               "wildcard_sections": not bool(st.get("wildcard_sections", True)), "fill_value": 0xABCD, "sections_subgroups": {".zz1": [".zz3"]}}
+        for k in OVER:
+            st[k] = None if (k in NULLABLE and c["seed"] % 3 == 0 and k != "fill_value") else alt[k]
+        c2 = dict(c, doc=doc2, id=c["id"] + ":restated")
+        impl2 = w.h.run(impl_request(c2))
+        if not same_outputs(impl, impl2):
+            res.update(status="violation", restated_doc=doc2,
+                       why="restating every effective value on the segments (and changing the now shielded global values) changed the outputs: "
+                           + ",".join(k for k in OUT_KEYS if impl.get(k) != impl2.get(k)))
+        return res
+
+    def extra_cases(self, tier):
+        cases = []
+        vals = {"alloc_sections": ([".text", ".data"], [".data", ".mysec", ".text"]), "noload_sections": ([".bss"], [".sbss", ".bss"]),
+                "subalign": (16, 4), "segment_start_align": (0x1000, 0x10), "segment_end_align": (0x40, 0x800),
+                "section_start_align": (8, 0x20), "section_end_align": (0x10, 4),
+                "sections_start_alignment": ({".data": 0x20}, {".text": 0x40, ".data": 8}),
+                "sections_end_alignment": ({".text": 0x20}, {".data": 0x10}), "wildcard_sections": (False, True),
+                "fill_value": (0xFF, 0x12345678), "sections_subgroups": ({".data": [".rdata"]}, {".text": [".init", ".fini"]})}
+        i = 0
+        for k in OVER:
+            for g in ("absent", "null", "v1", "v2"):
+                for sg in ("absent", "null", "v1", "v2"):
+                    i += 1
+                    st = {"base_path": "build"}
+                    seg = {"name": "main", "fixed_vram": 0x80000400, "files": [{"path": "a.o"}, {"path": "b.o"}]}
+                    for lvl, tgt in ((g, st), (sg, seg)):
+                        if lvl == "null":
+                            tgt[k] = None
+                        elif lvl == "v1":
+                            tgt[k] = copy.deepcopy(vals[k][0])
+                        elif lvl == "v2":
+                            tgt[k] = copy.deepcopy(vals[k][1])
+                    doc = {"settings": st, "segments": [seg, {"name": "other", "files": [{"path": "c.o"}]}]}
+                    cases.append({"id": "ov%d" % i, "seed": i, "stream": "lattice:override", "doc": doc, "opts": [],
+                                  "mode": "normal", "version_comment": False})
+        return cases
+
+
+PROPS = {p.pid: p for p in [C06(), C08(), C12(), C13(), C14()]}
